@@ -7,8 +7,12 @@
      crates/services/compression/src/temporal_registry.rs   storage-backed TemporalRegistry / EvictorDb
      fuel-compression RegistryKey (24 bit, next() wraps below DEFAULT_VALUE)
    A transaction is the list of its registry-substituted fields (keyspace, value) in the traversal order
-   of the fuel-compression derive macros; everything else of a transaction is carried verbatim by those
-   (trusted) macros and is not modelled.  Value 0 is the type's default value.  The reverse index of
+   of the fuel-compression derive macros, plus a marker [t_mal] of its malleable fields: the fields that
+   fuel-tx marks compress(skip) (script receipts_root, contract-input utxo_id / balance_root / state_root
+   / tx_pointer, contract-output roots, change amount, variable output, coin tx_pointer; 0 = all of them
+   have their default value, the "prepared for signing" form).  Skipped fields are not part of the
+   compressed transaction and decompress to their defaults.  Everything else of a transaction is
+   carried verbatim by the (trusted) derive macros and is not modelled.  Value 0 is the type's default value.  The reverse index of
    script / predicate code is keyed by the SHA-256 of the bytes in the code; the model keys it by the
    value itself (collision freedom of the hash on the values in use is assumed).
    The number of writable keys [KS] (real: 2^24 - 1, the raw DEFAULT_VALUE key) is a parameter. *)
@@ -138,7 +142,12 @@ Definition commit (e : evictor) (k : kspace) : kspace := set_latest_assigned_key
 (* blocks                                                              *)
 
 Definition item := (ksid * N)%type.          (* (keyspace, value) or (keyspace, key) *)
-Record block := mkblock { b_hdr : N; b_time : N; b_txs : list (list item) }.
+Record tx := mktx { t_mal : N; t_items : list item }.
+Record block := mkblock { b_hdr : N; b_time : N; b_txs : list tx }.
+Definition b_items (b : block) : list (list item) := map t_items (b_txs b).
+(* the block with every malleable field reset to its default: same transaction ids *)
+Definition tx_strip (x : tx) : tx := mktx 0 (t_items x).
+Definition strip (b : block) : block := mkblock (b_hdr b) (b_time b) (map tx_strip (b_txs b)).
 Record cblock := mkcblock {
   c_hdr : N; c_time : N;
   c_regs : per (list (N * N));               (* registrations: (key, value) in header order *)
@@ -280,10 +289,10 @@ Definition finalize (st : state) (cx : per cks) (hint : per (list N)) (t : N)
 Definition compress_block (KS r : N) (st : state) (b : block) (hint : per (list N))
   : res (cblock * state) :=
   let t := b_time b in
-  match prepare r t st (pconst []) (concat (b_txs b)) with
+  match prepare r t st (pconst []) (concat (b_items b)) with
   | Fail e => Fail e
   | Okay acc =>
-      match compress_txs KS r t st (into_compression_context KS st acc) (b_txs b) with
+      match compress_txs KS r t st (into_compression_context KS st acc) (b_items b) with
       | Fail e => Fail e
       | Okay (ctxs, cx) =>
           let '(regs, st') := finalize st cx hint t in
@@ -329,7 +338,7 @@ Definition decompress_block (KS r : N) (st : state) (cb : cblock) : res (block *
   | Okay txs =>
       match txs with
       | [] => Fail E_NOTX
-      | _ => Okay (mkblock (c_hdr cb) t txs, st1)
+      | _ => Okay (mkblock (c_hdr cb) t (map (mktx 0) txs), st1)
       end
   end.
 
@@ -343,7 +352,7 @@ Definition set_cursor (st : state) (s : ksid) (k : N) : state :=
 
 (* what the harness observes *)
 Inductive obs :=
-| BOk (keys : list (list item)) (regs : per (list (N * N))) (dstatus : N) (hdr_eq txs_eq : bool)
+| BOk (keys : list (list item)) (regs : per (list (N * N))) (dstatus : N) (hdr_eq txs_eq ids_eq : bool)
       (ctab dtab : state)
 | BErr (ctab dtab : state)
 | BCursor.
@@ -357,8 +366,10 @@ Fixpoint list_eqb {A} (f : A -> A -> bool) (x y : list A) : bool :=
 Definition item_eqb (x y : item) : bool := (ks_to_N (fst x) =? ks_to_N (fst y)) && (snd x =? snd y).
 Definition block_eqb_items (a b : list (list item)) : bool := list_eqb (list_eqb item_eqb) a b.
 
+Definition tx_eqb (x y : tx) : bool := (t_mal x =? t_mal y) && list_eqb item_eqb (t_items x) (t_items y).
 Definition block_eqb (a b : block) : bool :=
-  (b_hdr a =? b_hdr b) && (b_time a =? b_time b) && block_eqb_items (b_txs a) (b_txs b).
+  (b_hdr a =? b_hdr b) && (b_time a =? b_time b) && list_eqb tx_eqb (b_txs a) (b_txs b).
+Definition canonicalb (b : block) : bool := forallb (fun x => t_mal x =? 0) (b_txs b).
 
 Fixpoint run_history (KS r : N) (C D : state) (ops : list op) (hints : list (per (list N))) : list obs :=
   match ops with
@@ -374,11 +385,11 @@ Fixpoint run_history (KS r : N) (C D : state) (ops : list op) (hints : list (per
           | Okay (cb, C') =>
               match decompress_block KS r D cb with
               | Okay (b', D') =>
-                  BOk (c_txs cb) (c_regs cb) 0 (b_hdr b' =? b_hdr b)
-                      ((b_time b' =? b_time b) && block_eqb_items (b_txs b') (b_txs b)) C' D'
+                  BOk (c_txs cb) (c_regs cb) 0 ((b_hdr b' =? b_hdr b) && (b_time b' =? b_time b))
+                      (list_eqb tx_eqb (b_txs b') (b_txs b)) (block_eqb_items (b_items b') (b_items b)) C' D'
                   :: run_history KS r C' D' rest hs
               | Fail _ =>
-                  BOk (c_txs cb) (c_regs cb) 1 false false C' D :: run_history KS r C' D rest hs
+                  BOk (c_txs cb) (c_regs cb) 1 false false false C' D :: run_history KS r C' D rest hs
               end
           end
       end
@@ -386,13 +397,17 @@ Fixpoint run_history (KS r : N) (C D : state) (ops : list op) (hints : list (per
 
 (* ------------------------------------------------------------------ *)
 (* Pcheck: the specification decompressor (decompress_block from the empty registry) is replayed on
-   the compressed blocks the IMPLEMENTATION produced; it must reproduce every block, the
-   implementation's own decompressor must have reported success and equality, and the registry,
-   timestamp and reverse-index tables of both implementation stores must equal the specification
-   registry after every block.
+   the compressed blocks the IMPLEMENTATION produced; it must reproduce every block up to its
+   malleable fields (strip), the implementation's own decompressor must have reported success, an equal
+   header, equal transaction ids and -- for blocks without malleable fields -- equal transactions, and
+   the registry, timestamp and reverse-index tables of both implementation stores must equal the
+   specification registry after every block.  On top of that, exact equality of the transactions
+   is demanded for every block.
    codes: 1 ok; 2 a compressed block does not decode to the original block under the specification;
    3 the implementation's decompressor failed or returned a different block; 4 registry tables of
-   compressor / decompressor / specification differ; 0 malformed trace. *)
+   compressor / decompressor / specification differ; 5 everything above holds but some block with
+   non-default malleable fields was not reproduced exactly (only its stripped form);
+   0 malformed trace. *)
 
 Definition row_eqb (x y : N * (N * N)) : bool :=
   (fst x =? fst y) && (fst (snd x) =? fst (snd y)) && (snd (snd x) =? snd (snd y)).
@@ -402,22 +417,31 @@ Definition tab_eqb (a b : kspace) : bool :=
 
 Definition tabs_eqb (a b : state) : bool := forallb (fun s => tab_eqb (pget a s) (pget b s)) ks_all.
 
-Fixpoint replay_okb (KS r : N) (S : state) (ops : list op) (os : list obs) : N :=
+Fixpoint replay_core (KS r : N) (S : state) (ops : list op) (os : list obs) : N :=
   match ops, os with
   | [], [] => 1
-  | OCursor _ _ :: ops', BCursor :: os' => replay_okb KS r S ops' os'
+  | OCursor _ _ :: ops', BCursor :: os' => replay_core KS r S ops' os'
   | OBlock b :: ops', BErr ctab dtab :: os' =>
-      if tabs_eqb ctab S && tabs_eqb dtab S then replay_okb KS r S ops' os' else 4
-  | OBlock b :: ops', BOk keys regs dstatus hdr_eq txs_eq ctab dtab :: os' =>
+      if tabs_eqb ctab S && tabs_eqb dtab S then replay_core KS r S ops' os' else 4
+  | OBlock b :: ops', BOk keys regs dstatus hdr_eq txs_eq ids_eq ctab dtab :: os' =>
       match decompress_block KS r S (mkcblock (b_hdr b) (b_time b) regs keys) with
       | Fail _ => 2
       | Okay (b', S') =>
-          if negb (block_eqb b' b) then 2
-          else if negb ((dstatus =? 0) && hdr_eq && txs_eq) then 3
+          if negb (block_eqb b' (strip b)) then 2
+          else if negb ((dstatus =? 0) && hdr_eq && ids_eq && (txs_eq || negb (canonicalb b))) then 3
           else if negb (tabs_eqb ctab S' && tabs_eqb dtab S') then 4
-          else replay_okb KS r S' ops' os'
+          else replay_core KS r S' ops' os'
       end
   | _, _ => 0
+  end.
+
+Definition obs_exact (o : obs) : bool :=
+  match o with BOk _ _ _ _ txs_eq _ _ _ => txs_eq | _ => true end.
+
+Definition replay_okb (KS r : N) (S : state) (ops : list op) (os : list obs) : N :=
+  match replay_core KS r S ops os with
+  | 1 => if forallb obs_exact os then 1 else 5
+  | c => c
   end.
 
 (* ------------------------------------------------------------------ *)
@@ -446,24 +470,40 @@ Definition T_output (t : T) : option (list item) :=
   | L [I 4%Z] => Some []
   | _ => None
   end.
-(* tx = (script inputs outputs): script, then the inputs, then the outputs *)
-Definition T_tx (t : T) : option (list item) :=
+(* tx = (script inputs outputs [mal]): script, then the inputs, then the outputs *)
+Definition T_tx (t : T) : option tx :=
   match t with
   | L [sc; L ins; L outs] =>
       match getN sc, mapM T_input ins, mapM T_output outs with
-      | Some sc, Some ins, Some outs => Some ((KScript, sc) :: concat ins ++ concat outs)
+      | Some sc, Some ins, Some outs => Some (mktx 0 ((KScript, sc) :: concat ins ++ concat outs))
       | _, _, _ => None
       end
+  | L [sc; L ins; L outs; m] =>
+      match getN sc, mapM T_input ins, mapM T_output outs, getN m with
+      | Some sc, Some ins, Some outs, Some m => Some (mktx m ((KScript, sc) :: concat ins ++ concat outs))
+      | _, _, _, _ => None
+      end
+  | _ => None
+  end.
+(* the mint transaction: input contract, then the minted asset id *)
+Definition T_mint (t : T) : option tx :=
+  match t with
+  | L [mc; ma] =>
+      match getN mc, getN ma with
+      | Some mc, Some ma => Some (mktx 0 [(KContract, mc); (KAsset, ma)]) | _, _ => None end
+  | L [mc; ma; mm] =>
+      match getN mc, getN ma, getN mm with
+      | Some mc, Some ma, Some mm => Some (mktx mm [(KContract, mc); (KAsset, ma)]) | _, _, _ => None end
   | _ => None
   end.
 Definition T_op (t : T) : option op :=
   match t with
-  | L [I 0%Z; h; tm; L txs; L [mc; ma]] =>
-      match getN h, getN tm, mapM T_tx txs, getN mc, getN ma with
-      | Some h, Some tm, Some txs, Some mc, Some ma =>
-          (* the mint transaction comes last: input contract, then the minted asset id *)
-          Some (OBlock (mkblock h tm (txs ++ [[(KContract, mc); (KAsset, ma)]])))
-      | _, _, _, _, _ => None
+  | L [I 0%Z; h; tm; L txs; mint] =>
+      match getN h, getN tm, mapM T_tx txs, T_mint mint with
+      | Some h, Some tm, Some txs, Some mint =>
+          (* the mint transaction comes last *)
+          Some (OBlock (mkblock h tm (txs ++ [mint])))
+      | _, _, _, _ => None
       end
   | L [I 1%Z; s; k] =>
       match getN s, getN k with
@@ -528,20 +568,20 @@ Definition T_tab (t : T) : option kspace :=
 
 Definition obs_T (o : obs) : T :=
   match o with
-  | BOk keys regs ds he te ctab dtab =>
+  | BOk keys regs ds he te ie ctab dtab =>
       L [I 0; L (map (fun tx => L (map item_T tx)) keys); per_T (fun l => L (map pair_T l)) regs;
-         tN ds; tB he; tB te; per_T ctab_T ctab; per_T dtab_T dtab]
+         tN ds; tB he; tB te; tB ie; per_T ctab_T ctab; per_T dtab_T dtab]
   | BErr ctab dtab => L [I 1; per_T ctab_T ctab; per_T dtab_T dtab]
   | BCursor => L [I 2]
   end.
 Definition T_obs (t : T) : option obs :=
   match t with
-  | L [I 0%Z; keys; regs; ds; he; te; ctab; dtab] =>
-      match T_list (T_list T_item) keys, T_per (T_list T_pair) regs, getN ds, getB he, getB te,
+  | L [I 0%Z; keys; regs; ds; he; te; ie; ctab; dtab] =>
+      match T_list (T_list T_item) keys, T_per (T_list T_pair) regs, getN ds, getB he, getB te, getB ie,
             T_per T_tab ctab, T_per T_tab dtab with
-      | Some keys, Some regs, Some ds, Some he, Some te, Some ctab, Some dtab =>
-          Some (BOk keys regs ds he te ctab dtab)
-      | _, _, _, _, _, _, _ => None
+      | Some keys, Some regs, Some ds, Some he, Some te, Some ie, Some ctab, Some dtab =>
+          Some (BOk keys regs ds he te ie ctab dtab)
+      | _, _, _, _, _, _, _, _ => None
       end
   | L [I 1%Z; ctab; dtab] =>
       match T_per T_tab ctab, T_per T_tab dtab with
